@@ -121,7 +121,7 @@ def sac_case(c: dict) -> dict:
         buf = buf.add(jnp.zeros(3), jnp.zeros(3), jnp.zeros(1), float(r["r"]), r["done"], r["timeout"], None, None)
     opt_state = algo.optimizer.init(eqx.filter(policy, eqx.is_inexact_array))
     q_opt = algo.q_optimizer.init((eqx.filter(qf1, eqx.is_inexact_array), eqx.filter(qf2, eqx.is_inexact_array)))
-    log_alpha = jnp.asarray(0.0)
+    log_alpha = jnp.log(jnp.asarray(float(c.get("a", 1))))          # temperature alpha = c["a"] (1 or 2)
     a_opt = algo.alpha_optimizer.init(log_alpha)
 
     def call(it):
